@@ -661,7 +661,22 @@ func gen(tier string, seed int64) []mon.Case {
 			add(Desc{Scenario: sc.Name, DryErr: e})
 			continue
 		}
-		if sc.LossOnly || (tier != "thorough" && !sc.Quick) {
+		if sc.LossOnly {
+			continue
+		}
+		if tier != "thorough" && !sc.Quick {
+			// the scenarios left to the thorough tier are still met at the edges of their exchange:
+			// a device that never says anything, one that stops after its first byte, in the middle,
+			// and one byte short of the end
+			eseg := segs[0]
+			if sc.Seg != nil {
+				eseg = *sc.Seg
+			}
+			for _, k := range []int{0, 1, st.S / 2, st.S - 1} {
+				if k >= 0 && k <= st.S {
+					add(Desc{Scenario: sc.Name, K: k, Setting: "conn", Seg: eseg, Base: st.Base, S: st.S, Want: st.Want, CmdAt: st.CmdAt})
+				}
+			}
 			continue
 		}
 		scSegs := segs
@@ -760,9 +775,15 @@ func gen(tier string, seed int64) []mon.Case {
 					ks = []int{st.S / 2}
 				}
 				for _, k := range ks {
-					add(Desc{Scenario: sc.Name, K: k, Setting: "perop-long", Seg: seg, Base: st.Base, S: st.S, Want: st.Want})
+					if sc.UserCmd != "" && !sc.PrivErrOK && k < st.CmdAt {
+						// the privilege change in front of the configuration lines is an operation of its
+						// own, governed by the connection-wide timeout: the override is judged from the
+						// first byte of the user's own lines on
+						k = st.CmdAt + k%7
+					}
+					add(Desc{Scenario: sc.Name, K: k, Setting: "perop-long", Seg: seg, Base: st.Base, S: st.S, Want: st.Want, CmdAt: st.CmdAt})
 					if sc.Name != "g.callbacks" {
-						add(Desc{Scenario: sc.Name, K: k, Setting: "zero", Seg: seg, Base: st.Base, S: st.S, Want: st.Want})
+						add(Desc{Scenario: sc.Name, K: k, Setting: "zero", Seg: seg, Base: st.Base, S: st.S, Want: st.Want, CmdAt: st.CmdAt})
 					}
 				}
 			}
